@@ -68,7 +68,7 @@ func libGeometry(g geom.Geometry, gs *gridSpec, ids []int, id int, cfg snap.Conf
 
 func checkC13(e *env) {
 	r := e.res
-	r.Rule = "the real binary (go build -tags verif of /repo) on random source GeoPackages: 1-3 tables (POLYGON, MULTIPOLYGON with 1-3 parts, POINT/LINESTRING/MULTIPOINT with some empty geometries, GEOMETRY holding polygons among other kinds), 0-25 features each, polygons from the valid families in a NetherlandsRDNewQuad window " +
+	r.Rule = "the real binary (go build -tags verif of /repo) on random source GeoPackages: 1-3 tables (POLYGON, MULTIPOLYGON with 1-3 parts, POINT/LINESTRING/MULTIPOINT with some empty geometries, GEOMETRY holding polygons among other kinds), 0-25 features each, polygons from the valid families in a NetherlandsRDNewQuad window (one run in eight: WebMercatorQuad ids 19-20, the deepest levels), near-duplicates of a polygon 2e-5 apart " +
 		"plus sub-pixel polygons that collapse and (with -iog) polygons outside the grid, 1-5 attribute columns with NULLs, geometry column anywhere; id lists of 1-3 ids, page sizes 1..7 and 1000, all keep/reverse/ignore flags (each option by its long name, its alias or its environment variable), " +
 		"target paths over a safe alphabet (dots in directory and file names, no extension), with pre-existing target files of other content when overwrite is on. Expected content is computed by calling snap.SnapPolygon in-process. " +
 		"Non-trivial = at least two ids and a polygon table where some feature is omitted or becomes a multipolygon for some id; distinct by command line + source content."
@@ -85,12 +85,19 @@ func checkC13(e *env) {
 	}
 	defer os.RemoveAll(dir)
 	initWindows()
-	rd := realWindows[0].gs
 	wins := []window{realWindows[0], realWindows[1], realWindows[2]}
 	n := e.n(60, 2500)
 	hangs := 0
 	for it := 0; it < n; it++ {
 		w := wins[e.rng.Intn(len(wins))]
+		if it%8 == 7 { // the deepest levels the library still snaps on (WebMercatorQuad 19 and 20: levels 31 and 32)
+			w = realWindows[5]
+		}
+		rd := w.gs // the tile matrix set of this run
+		setName, setSRS := "NetherlandsRDNewQuad", int32(28992)
+		if w.gs.name != "NetherlandsRDNewQuad" {
+			setName, setSRS = w.gs.name, 3857
+		}
 		w.G = 16
 		var ids []int
 		for id := w.minID; id <= w.maxID; id++ {
@@ -114,7 +121,7 @@ func checkC13(e *env) {
 			}
 			t := randTable(e.rng, fmt.Sprintf("t%d_%s", ti, strings.ToLower(gt.String())), gt, e.rng.Intn(26), 0)
 			if gt == gpkg.Polygon || gt == gpkg.MultiPolygon || gt == gpkg.Geometry { // the other tables keep a reference system of their own
-				t.srs = 28992
+				t.srs = setSRS
 			}
 			pix := pixelSize(rd, ids[0])
 			for i := range t.geoms {
@@ -127,8 +134,8 @@ func checkC13(e *env) {
 							d := pix / 50
 							return geom.Polygon{{{x, y}, {x + d, y}, {x, y + d}}}
 						case 1:
-							if cfg.IgnoreOutsideGrid { // outside the RD extent
-								return geom.Polygon{{{-400000, 0}, {-399000, 0}, {-399000, 1000}}}
+							if cfg.IgnoreOutsideGrid { // outside the extent of the set
+								return geom.Polygon{{{-4e8, 0}, {-3.99e8, 0}, {-3.99e8, 1000}}}
 							}
 						}
 						for {
@@ -148,6 +155,21 @@ func checkC13(e *env) {
 					}
 				default:
 					t.geoms[i] = randGeom(e.rng, gt, i, 10)
+				}
+			}
+			// a near-duplicate of an earlier polygon of the table (the same parcel from another survey: every vertex 2e-5 to the left, which is
+			// another pixel for the vertices on a pixel border): it must get its own geometry
+			if gt == gpkg.Polygon && len(t.geoms) >= 2 && e.rng.Intn(3) == 0 {
+				if src, ok := t.geoms[0].(geom.Polygon); ok {
+					cp := make(geom.Polygon, len(src))
+					for ri := range src {
+						cp[ri] = make([][2]float64, len(src[ri]))
+						for vi, v := range src[ri] {
+							cp[ri][vi] = [2]float64{v[0] - 2e-5, v[1]}
+						}
+					}
+					t.geoms[len(t.geoms)-1] = cp
+					r.Dist["cli:near-duplicate-polygon"]++
 				}
 			}
 			tables = append(tables, t)
@@ -176,7 +198,7 @@ func checkC13(e *env) {
 		}
 		idsJSON, _ := json.Marshal(ids)
 		// every option is given by its long name, by its alias or through the environment (the flag's name in capitals)
-		args := []string{"-s", src, "-t", target, "-tms", "NetherlandsRDNewQuad"}
+		args := []string{"-s", src, "-t", target, "-tms", setName}
 		var envs []string
 		give := func(name, alias, value string, isBool bool) {
 			switch e.rng.Intn(3) {
